@@ -311,6 +311,23 @@ fn inv(phi: f64) -> f64 {
     AuthalicProjection.inverse(Radians::new_unchecked(phi)).get()
 }
 
+
+/// One call sequence over {forward(x), inverse(x), forward(-x), inverse(-x)} on the calling thread; every
+/// result is judged on its own by the closed form (never by an earlier result of the subject): the two
+/// conversions take the same kind of argument, so a caller can hand both the same bits in a row.
+fn same_argument_sequence(x: f64, seq: &[usize]) -> Option<(usize, String)> {
+    for (i, &op) in seq.iter().enumerate() {
+        let a = if op >= 2 { -x } else { x };
+        let (name, y) = if op % 2 == 0 { ("forward", fwd(a)) } else { ("inverse", inv(a)) };
+        let e = if op % 2 == 0 { (y - rg::authalic_lat_closed_form(a)).abs() } else { (rg::authalic_lat_closed_form(y) - a).abs() };
+        if !(e <= 1e-11) {
+            return Some((i, format!("{}({}) = {} is off by {:.3e} rad (closed-form WGS84 authalic latitude)", name, a, y, e)));
+        }
+    }
+    None
+}
+const SEQ_OPS: [&str; 4] = ["forward(x)", "inverse(x)", "forward(-x)", "inverse(-x)"];
+
 pub fn run_c19(tier: &str) -> Report {
     let mut rep = Report::new("exploration");
     let bits = if tier == "quick" { 22 } else { 24 };
@@ -491,6 +508,41 @@ pub fn run_c19(tier: &str) -> Report {
     }
     evals += ladder_pairs;
     rep.set("latitude_ladder_ordered_pairs", json!(ladder_pairs));
+    // same-argument sequences: all 64 triples over {forward(x), inverse(x), forward(-x), inverse(-x)} for every
+    // x of a latitude grid (|x| <= 88 deg), each grid chunk on its own fresh thread
+    {
+        let steps: i64 = if tier == "quick" { 2000 } else { 40000 };
+        let xs: Vec<f64> = (-steps..=steps).map(|k| 88.0 * rg::DEG * k as f64 / steps as f64).chain([0.9, 0.5, 1e-9, 1.0e-3, 0.7853981633974483]).collect();
+        let triples: Vec<[usize; 3]> = (0..4).flat_map(|a| (0..4).flat_map(move |b| (0..4).map(move |c| [a, b, c]))).collect();
+        let chunks: Vec<&[f64]> = xs.chunks(256).collect();
+        let vs: Vec<Viol> = chunks
+            .par_iter()
+            .flat_map(|ch| {
+                let triples = &triples;
+                std::thread::scope(|sc| {
+                    sc.spawn(move || {
+                        for &x in ch.iter() {
+                            for t in triples.iter() {
+                                if let Some((i, why)) = same_argument_sequence(x, t) {
+                                    return vec![viol(
+                                        "C19/after-same-argument",
+                                        format!("call #{} of the sequence [{}, {}, {}] with x = {}: {}", i + 1, SEQ_OPS[t[0]], SEQ_OPS[t[1]], SEQ_OPS[t[2]], x, why),
+                                        json!({"kind": "same_argument", "x": x, "seq": t.to_vec()}),
+                                    )];
+                                }
+                            }
+                        }
+                        vec![]
+                    })
+                    .join()
+                    .unwrap_or_default()
+                })
+            })
+            .collect();
+        rep.sink.extend(vs);
+        evals += (xs.len() * 64 * 3) as u64;
+        rep.set("same_argument_sequences", json!({"latitudes": xs.len(), "sequences_per_latitude": 64, "alphabet": SEQ_OPS}));
+    }
     // second-difference sweeps of both conversions over the whole latitude range in equal steps: a jump
     // of either function (a branch, a band with its own formula) of more than 1e-12 rad shows as its size
     {
@@ -581,6 +633,15 @@ pub fn replay_c18(case: &Value) -> Vec<Viol> {
 pub fn replay_c19(case: &Value) -> Vec<Viol> {
     let mut out = Vec::new();
     match case["kind"].as_str() {
+        Some("same_argument") => {
+            let x = case["x"].as_f64().unwrap();
+            let sq: Vec<usize> = case["seq"].as_array().map(|a| a.iter().filter_map(|v| v.as_u64().map(|u| u as usize % 4)).collect()).unwrap_or_default();
+            let c2 = case.clone();
+            let r = std::thread::spawn(move || same_argument_sequence(x, &sq)).join().unwrap_or(None);
+            if let Some((i, why)) = r {
+                out.push(viol("C19/after-same-argument", format!("call #{}: {}", i + 1, why), c2));
+            }
+        }
         Some("ladder") => {
             let (lon, lj, lk) = (case["lon"].as_f64().unwrap(), case["first_lat"].as_f64().unwrap(), case["second_lat"].as_f64().unwrap());
             let r = subj::from_lonlat(lon, lj).and_then(|_| subj::to_lonlat(rg::ll_to_vec(lon, lk)));
